@@ -624,9 +624,6 @@ theorem positive_unique (L : AngleLaws K) (x y : K) (h0 : 0 ≤ y) (h1 : y < tau
 variable [Atan K]
 
 
-/-- the witness arc of finding `C11-arc-negative-sweep-extremum`:
-centre (0,0), radii (10,10), start 1/2, sweep −2, no rotation -/
-def negArc : Arc K := ⟨⟨0, 0⟩, ⟨10, 10⟩, 1/2, -2, 0⟩
 
 
 
